@@ -358,7 +358,7 @@ func phLetter(ph walk.Phase) string {
 func actLetter(a walk.Action) string { return [...]string{"C", "S", "B"}[a] }
 
 // randomPolicy draws skip/break with the given density (per mille) over all
-// (node, phase) pairs; about one action in four is a break.
+// (node, phase) pairs; about one action in seven is a break (traversals that end early exercise less).
 func randomPolicy(r *core.RNG, nodes []ast.Node, perMille int) *policy {
 	p := &policy{acts: map[ast.Node][2]walk.Action{}}
 	var parts []string
@@ -367,7 +367,7 @@ func randomPolicy(r *core.RNG, nodes []ast.Node, perMille int) *policy {
 		for ph := walk.Enter; ph <= walk.Leave; ph++ {
 			if r.Intn(1000) < perMille {
 				a := walk.Skip
-				if r.Chance(25) {
+				if r.Chance(15) {
 					a = walk.Break
 				}
 				v[ph] = a
